@@ -160,7 +160,8 @@ def main():
     level = getattr(mod, "LEVEL", "exploration")
     cov = dict(evaluations=m["evaluations"], distinct_nontrivial=m["nontrivial"],
                rule=getattr(mod, "RULE", ""), samples=m["samples"][:6],
-               exhaustive=(not m["capped"]), shards=m["shards"],
+               exhaustive=(not m["capped"]) and tier not in getattr(mod, "REDUCED", {}), shards=m["shards"],
+               reduction=getattr(mod, "REDUCED", {}).get(tier, "none: the stated bound is enumerated completely"),
                distinct_outcomes=len(m["outcomes"]), counters=m["counters"],
                bound=mod.bound(tier) if hasattr(mod, "bound") else "",
                determinism_replay_identical=det, environment=envinfo,
